@@ -2,6 +2,6 @@
 EXTENDS Argv_MC
 QuickSsh == <<1, 3, 3, 1>>
 QuickDocker == <<1, 1, 0, 2>>
-ThoroughSsh == <<2, 3, 3, 2>>
-ThoroughDocker == <<1, 3, 2, 2>>
+ThoroughSsh == <<2, 3, 3, 1>>
+ThoroughDocker == <<1, 3, 1, 2>>
 ====
